@@ -40,9 +40,11 @@ META = {
             "NOT covered: qhull is stubbed in this build, so meshes are attached to non-colliding geoms (no convex hulls, no "
             "mesh collision data); file-based assets (PNG/OBJ/STL decoders) are not exercised; controlled schedules of the real "
             "compile tasks (the compile oracle runs real threads; only the queue protocol runs under the controlled scheduler); "
-            "lost wake-ups are outside the Coq model (watchdog only); uninitialised-memory nondeterminism; termination of "
-            "mj_compile (length-range cases run under a 90 s timeout: mj_setLengthRange does not terminate on unstable "
-            "simulations, counted in support.lengthrange_nonterminating).",
+            "lost wake-ups are outside the Coq model (watchdog only); uninitialised-memory nondeterminism.  Specs the compiler "
+            "rejects (e.g. 'Unstable lengthrange simulation') are compared too: the error text must be the same for a second "
+            "compile, a spec copy and usethread 0/1; a compile that does not return within the per-process timeout is an alarm "
+            "(mj_setLengthRange used to loop forever on unstable simulations, repaired in /repo 400c5148c; the two inputs are in "
+            "the fixed corpus).",
     "note": "Trusted: Coq kernel; hand-written model Model/UserPool.v; the shim scheduler (shim_atomic.h, c33_shim.h) and the mapping "
             "of log lines to model events in c33.py; drivers c33_pool.cc / c33_compile.cc; g++. All theorems closed under the "
             "global context.  Cites C02 (Proof/ParMapProof.v) and C31 (Proof/MJBProof.v decode_encode).",
@@ -222,6 +224,10 @@ def compile_cases(ctx):
     # fixed corpus (both tiers): KNOWN finding C33-F1 shows on these (delayed actuators / applied forces / eq_active / userdata)
     cases.append({"seed": 4, "feat": FEAT_ALL, "nbody": 6, "nmesh": 2, "ntex": 2, "flags": 16, "reps": 1})
     cases.append({"seed": 1, "feat": FEAT_ALL, "nbody": 6, "nmesh": 4, "ntex": 3, "flags": 22, "reps": 1})
+    # previously non-terminating inputs (mj_setLengthRange loop, repaired in /repo 400c5148c): now deterministic rejections;
+    # a hang is a regression (TIMEOUT alarms)
+    cases.append({"seed": 365416, "feat": 280819, "nbody": 7, "nmesh": 0, "ntex": 0, "flags": 9, "reps": 1})
+    cases.append({"seed": 343637, "feat": 498587, "nbody": 4, "nmesh": 0, "ntex": 2, "flags": 42, "reps": 2})
     for i in range(10 if q else 50):
         feat = 0
         for b in (1, 2, 4, 8, 16, 32, 64, 128, 256, 512, 1024, 2048, 4096, 8192, 16384, 32768, 65536, 131072, 262144):
@@ -261,12 +267,21 @@ def _run_compile_batch(ctx, exe, cases, timeout):
 
 
 def run_compile(ctx, exe, cases):
-    """cases with length ranges (flags & 1) run one per process under a short timeout (mj_setLengthRange does not terminate
-    on unstable simulations: reported separately, not a C33 matter); the others in chunks, a chunk that is killed is
+    """cases whose compile simulates length ranges (flags & 1: all actuators, flags & 32: muscle rig) run one per process
+    under a 120 s timeout, so that a non-terminating compile (a regression of /repo 400c5148c) costs little and names its
+    input; after the first time-out the remaining ones are not run.  The others run in chunks; a chunk that is killed is
     re-run case by case."""
     res = [None] * len(cases)
-    plain = [i for i, c in enumerate(cases) if not (c["flags"] & 1)]
-    lr = [i for i, c in enumerate(cases) if c["flags"] & 1]
+    lrmask = 1 | 32
+    plain = [i for i, c in enumerate(cases) if not (c["flags"] & lrmask)]
+    lr = [i for i, c in enumerate(cases) if c["flags"] & lrmask]
+    hung = False
+    for i in lr:
+        if hung:
+            res[i] = ("SKIPPED", [])
+            continue
+        res[i] = _run_compile_batch(ctx, exe, [cases[i]], 120)[0]
+        hung = res[i][0] == "TIMEOUT"
     for k in range(0, len(plain), 6):
         idx = plain[k:k + 6]
         r = _run_compile_batch(ctx, exe, [cases[i] for i in idx], 300)
@@ -275,10 +290,6 @@ def run_compile(ctx, exe, cases):
         redo = idx[len(r) - 1:] if r[-1][0] == "TIMEOUT" or r[-1][0].startswith("CRASH") else idx[len(r):]
         for i in redo:
             res[i] = _run_compile_batch(ctx, exe, [cases[i]], 200)[0]
-    for i in lr:
-        res[i] = _run_compile_batch(ctx, exe, [cases[i]], 90)[0]
-        if res[i][0] == "TIMEOUT":
-            res[i] = ("LRTIMEOUT", res[i][1])
     return res
 
 
@@ -360,16 +371,36 @@ def run(ctx):
     if len(cres) < len(ccases):
         ctx.broken.append(("correspondence", "driver c33_compile produced %d of %d results" % (len(cres), len(ccases)), ""))
     ncmp, nstate, nocompile, threaded, known = 0, 0, 0, 0, 0
-    lrhang = []
+    nrej = 0
     assets = {"mesh": 0, "tex": 0, "hfield": 0}
     for c, (status, ls) in zip(ccases, cres):
-        if status == "NOCOMPILE":
+        if status == "SKIPPED":
+            continue
+        if status in ("REJECTED", "REJDIFF"):
             nocompile += 1
+            for l in ls:
+                t = l.split(None, 3)
+                if t[0] != "REJ":
+                    continue
+                nrej += 1
+                if t[2] == "1":
+                    continue
+                first = [x for x in ls if x.startswith("NOTE ")]
+                if t[2] == "2":
+                    ctx.violation("impl_violation", c, expected="the same compile error text in every variant: " + (first[0][5:] if first else ""),
+                                  observed=l, theorem="C33 oracle (rejections are deterministic and copy-invariant)",
+                                  signature={"site": "usethread" if t[1].startswith("usethread") else t[1], "class": "rejection-warning-text-differs"})
+                else:
+                    ctx.violation("impl_violation", c, expected="the spec is rejected with the same error in every variant: " + (first[0][5:] if first else ""),
+                                  observed=l, theorem="C33 oracle (rejections are deterministic and copy-invariant)",
+                                  signature={"site": "usethread" if t[1].startswith("usethread") else t[1], "what": "rejection-differs"})
             continue
-        if status == "LRTIMEOUT":
-            lrhang.append(c)
+        if status == "TIMEOUT":
+            ctx.violation("impl_violation", c, expected="mj_compile returns (a model or an error)", observed="no result within the per-process timeout (120 s for length-range cases)",
+                          theorem="C33 oracle (termination of compile; regression of /repo 400c5148c if in mj_setLengthRange)",
+                          signature={"site": "mj_compile", "what": "hang"}, note=" | ".join(ls[-4:]))
             continue
-        if status.startswith("CRASH") or status == "TIMEOUT":
+        if status.startswith("CRASH"):
             ctx.violation("impl_violation", c, expected="compile / copy / recompile complete", observed=status, theorem="C33 oracle",
                           signature={"site": "mj_compile", "what": "crash"}, note=" | ".join(ls[-4:]))
             continue
@@ -410,7 +441,7 @@ def run(ctx):
     ctx.cov["distinct_nontrivial"] = nontriv + threaded
     ctx.cov["pool_logs"] = {"cases": len(pcases), "distinct_event_logs": len(distinct), "with_two_workers_inside_tasks": nontriv,
                             "events_replayed_in_coq": nevents, "rejected_by_model": len(fails)}
-    ctx.cov["compile_cases"] = {"cases": len(ccases), "did_not_compile": nocompile, "with_at_least_2_pool_tasks": threaded,
+    ctx.cov["compile_cases"] = {"cases": len(ccases), "rejected_specs": nocompile, "with_at_least_2_pool_tasks": threaded,
                                 "byte_comparisons": ncmp, "state_comparisons": nstate, "assets": assets}
     ctx.cov["rule"] = ("pool: histories of Schedule xk / WaitCount (single batches k x workers x 4 scheduler modes, random multi-batch histories, "
                        "degenerate ones) each under a seeded scheduler; non-trivial = distinct log with two workers inside tasks at once. "
@@ -420,8 +451,7 @@ def run(ctx):
     ctx.cov["correspondence_disagreements"] = len(fails)
     ctx.cov["support"]["oracle_violations_pool"] = nviol
     ctx.cov["support"]["known_finding_C33_F1_cases"] = known
-    ctx.cov["support"]["lengthrange_nonterminating"] = {"cases": len(lrhang), "first": lrhang[:2],
-                                                        "note": "mj_setLengthRange loops forever on an unstable length-range simulation (reported to the coordinator; not a C33 matter)"}
+    ctx.cov["compile_cases"]["rejection_comparisons"] = nrej
     ctx.cov["explanation"] = ("Work-queue theorems proved for every interleaving of the lock-step model and tied to user_threadpool.cc by replaying "
                               "%d implementation logs (%d events) in Coq; determinism / copy invariance searched by %d byte comparisons of saved "
                               "models and %d state comparisons" % (len(coq_cases), nevents, ncmp, nstate))
